@@ -16,9 +16,7 @@ Definition gen_disassembleSourceID (sourceID : Z) : Z * Z :=
   (index_1, partition_1).
 
 Definition gen_assembleOffset (message_Offset message_LeaderEpoch : Z) : Z :=
-  let packOffset_offset := message_Offset in
-  let packOffset_leaderEpoch := message_LeaderEpoch in
-  (go_add I64 (go_shl I64 packOffset_offset 16) (go_conv I64 packOffset_leaderEpoch)).
+  (go_add I64 (go_shl I64 message_Offset 16) (go_conv I64 message_LeaderEpoch)).
 
 Definition gen_disassembleOffset (assembledOffset : Z) : Z * Z :=
   let offset := (go_shr I64 assembledOffset 16) in
